@@ -440,6 +440,7 @@ type FuncSpec struct {
 	Pure     bool
 	Decreases *Clause
 	Uses     []*Clause
+	Splits   []*Clause // case split of every obligation (cases must cover: checked)
 }
 
 type GhostDecl struct {
@@ -462,7 +463,7 @@ var clauseKeywords = map[string]bool{
 	"func": true, "requires": true, "ensures": true, "modifies": true, "panics": true,
 	"loop": true, "invariant": true, "decreases": true, "assert": true, "opt": true,
 	"spec": true, "pred": true, "lemma": true, "by": true, "extern": true, "ghost": true,
-	"pattern": true, "opaque": true, "end": true, "use": true, "ghostarray": true, "ghostval": true,
+	"pattern": true, "opaque": true, "end": true, "use": true, "ghostarray": true, "ghostval": true, "split": true,
 }
 
 type rawLine struct {
@@ -807,6 +808,13 @@ func LoadSpecFile(path, pkg string) (sf *SpecFile, err error) {
 				cur.Uses = append(cur.Uses, c)
 			} else {
 				panic(l.pos + ": use outside func/loop")
+			}
+		case "split":
+			for _, part := range splitTop(l.rest, '|') {
+				if strings.Contains(part, "||") {
+					panic(l.pos + ": use single | between split cases")
+				}
+				cur.Splits = append(cur.Splits, must(mkClause("split", part, l.pos)))
 			}
 		case "ghost":
 			cur.Ghost = append(cur.Ghost, &Clause{Kind: "ghost", Text: l.rest, Line: l.pos})
